@@ -626,6 +626,11 @@ class RTDCBase(abc.ABC):
         xs = RTDCBase._apply_scale(x, xscale, xax)
         ys = RTDCBase._apply_scale(y, yscale, yax)
 
+        if downsample >= xs.size:
+            # All events are requested, there is nothing to downsample
+            # (`downsample_grid` cannot draw more samples than events).
+            downsample = 0
+
         _, _, idx = downsampling.downsample_grid(xs, ys,
                                                  samples=downsample,
                                                  remove_invalid=remove_invalid,
